@@ -310,6 +310,7 @@ func writeRuntime(dir, rtPath string) error {
 	files := map[string]string{
 		"tmpl/zzsimrt.go.txt":    "zzsimrt/zzsimrt.go",
 		"tmpl/sched.go.txt":      "zzsimrt/sched.go",
+		"tmpl/keys.go.txt":       "zzsimrt/keys.go",
 		"tmpl/simsync.go.txt":    "zzsimrt/simsync/simsync.go",
 		"tmpl/simsync121.go.txt": "zzsimrt/simsync/simsync121.go",
 	}
